@@ -17,14 +17,15 @@ def pick(got, rng):
     # those the ones with a restart or a duplicate delivery
     def has(s, *names):
         return any(o["op"] in names for o in s["ops"])
-    a = [s for s in got if has(s, "restart") and has(s, "deliver")]
+    a0 = [s for s in got if has(s, "restart") and has(s, "claim") and has(s, "deliver")]
+    a = [s for s in got if has(s, "restart") and has(s, "deliver") and not has(s, "claim")]
     b = [s for s in got if has(s, "dup") and not has(s, "restart")]
     c = [s for s in got if has(s, "deliver") and not has(s, "restart", "dup")]
     d = [s for s in got if not has(s, "deliver")]
-    for x in (a, b, c, d):
+    for x in (a0, a, b, c, d):
         rng.shuffle(x)
-    n = len(got)
-    return a[:n] + b[:max(50, len(a) // 2)] + c[:max(100, len(a))] + d[:max(30, len(a) // 6)]
+    n = max(100, len(a0))
+    return a0 + a[:n] + b[:n // 2] + c[:n] + d[:n // 6]
 
 
 def _second_sent(r, k, recs):
@@ -93,7 +94,17 @@ PROBES = [("stale_restart_forgets_holding_cell_htlc", {"cfg": {"topo": "line", "
     {"op": "send", "from": 0, "id": 1, "reg": 1, "paths": [[1, 2]], "amts": [3000000]},
     {"op": "send", "from": 0, "id": 2, "reg": 2, "paths": [[1, 2]], "amts": [5000000]},
     {"op": "save", "node": 0}, {"op": "pump"},
-    {"op": "restart", "node": 0, "use": "stale", "allow_unclean": True}, {"op": "settle"}]})]
+    {"op": "restart", "node": 0, "use": "stale", "allow_unclean": True}, {"op": "settle"}]}),
+    # second recorded finding of the same family: the snapshot holds an MPP payment in state Abandoned (one part
+    # failed, one in flight); the payment then fails, the user retries with the same payment id, the new HTLC
+    # becomes claimable at the recipient; restart from the snapshot: insert_from_monitor_on_startup cannot add
+    # the new HTLC to the Abandoned entry, the old parts are failed, the payment is forgotten.
+    ("stale_restart_reused_id_not_readded", {"cfg": {"topo": "fan", "n": 2}, "ops": [
+        {"op": "reg", "node": 3, "reg": 1, "amt": 6000000},
+        {"op": "send", "from": 0, "id": 1, "reg": 1, "paths": [[1, 3], [2, 4]], "amts": [2000000, 4000000], "fee_over": {"0:0": 0}},
+        {"op": "pump"}, {"op": "save", "node": 0}, {"op": "tick", "node": 3}, {"op": "pump"},
+        {"op": "send", "from": 0, "id": 1, "reg": 1, "paths": [[2, 4]], "amts": [6000000]}, {"op": "pump"},
+        {"op": "restart", "node": 0, "use": "stale", "allow_unclean": True}, {"op": "settle"}]})]
 
 SELFTESTS = [("second-PaymentSent", _second_sent), ("PaymentSent-reported-as-failed", _sent_as_failed),
              ("recipient-never-claimed", _claim_dropped), ("fee-off-by-one", _fee_off),
@@ -118,7 +129,8 @@ def run(tier, seed):
             "id and before any restart of the payer (later events may stem from an earlier use or be repetitions)",
             "a restart from a snapshot the monitors have overtaken (LDK closes those channels) is driven only from snapshots "
             "taken while the payer was idle (events handled, links up and empty), the run then ends with list_recent_payments; "
-            "the non-idle case is a recorded finding (probe stale_restart_forgets_holding_cell_htlc)",
+            "and only if no payment id was used twice in the run; the other cases are recorded findings (probes "
+            "stale_restart_forgets_holding_cell_htlc, stale_restart_reused_id_not_readded)",
             "the balance check applies to payers that never receive or forward in the run; PaymentSent.fee_paid_msat = None "
             "disables it for that payer",
         ])
